@@ -1,0 +1,10 @@
+// Copyright 2026 Juan Pablo Tosso and the OWASP Coraza contributors
+// SPDX-License-Identifier: Apache-2.0
+
+//go:build verif
+
+package memoize
+
+import "fmt"
+
+func typeName(v any) string { return fmt.Sprintf("%T", v) }
